@@ -68,6 +68,15 @@ def _member(t: Term, env: Dict[Term, Tuple[str, bool]]) -> Tuple[str, bool]:
         if t[1] == "&":
             return ("fin" if "fin" in (ka, kb) else "cofin", a and b)
         return ("cofin" if ka == "cofin" and kb == "fin" else "fin", a and not b)
+    if t[0] == "unop" and t[1] == "~":
+        k, m = _member(t[2], env)
+        if k == "fin":
+            raise Definite(f"{T.show(t)} complements a plain frozenset (TypeError)")
+        inv = env.get("§invert")
+        if inv is None:
+            raise Definite(f"{T.show(t)}: OutSet defines no __invert__ (TypeError)")
+        # what OutSet.__invert__ returns for this operand
+        return _member(T.replace(inv[1], {inv[0]: T.strip(t[2])}), env)
     if t[0] == "op":
         raise Definite(f"operator {t[1]} in {T.show(t)} is not a set operation")
     if t[0] == "attr" and t[2] == "_set" and t[1] in env and env[t[1]][0] == "fin":
@@ -100,6 +109,26 @@ def _operators(ctx: Ctx, c: Collector) -> None:
         "__and__": lambda s, o: s and o, "__rand__": lambda s, o: s and o,
         "__or__": lambda s, o: s or o, "__ror__": lambda s, o: s or o,
     }
+    # a complement operator (added later): `~OutSet(E)` -- its value, as an expression over its own `self`
+    invert = None
+    ifi = ctx.prog.functions.get(f"{OUTSET}.__invert__")
+    if ifi is not None and len(ifi.params) == 1:
+        irv = folded_return(ctx.summ(ifi.qualname))
+        if irv is not None:
+            invert = (T.var(ifi.params[0]), T.strip(irv))
+            isv = T.var(ifi.params[0])
+            bad_i = []
+            try:
+                for sm in (False, True):
+                    kind, got = _member(invert[1], {("attr", isv, "_set"): ("fin", sm), isv: ("cofin", not sm)})
+                    if got != sm or kind != "fin":
+                        bad_i.append(f"x {'not in' if sm else 'in'} self: ~self {'contains' if got else 'lacks'} x ({kind}ite)")
+                c.add("op", ifi.qualname, "__invert__", VIOLATED if bad_i else DISCHARGED, "; ".join(bad_i), ifi.loc)
+            except Definite as ex:
+                c.bad("op", ifi.qualname, "__invert__", str(ex), ifi.loc)
+            except Unknown as ex:
+                c.unk("op", ifi.qualname, "__invert__", str(ex), ifi.loc)
+                invert = None
     for name, meaning in specs.items():
         qn = f"{OUTSET}.{name}"
         fi = ctx.func(qn)
@@ -130,6 +159,8 @@ def _operators(ctx: Ctx, c: Collector) -> None:
                 for sm, om in itertools.product([False, True], repeat=2):
                     # sm: x in self._set ; om: x in other._set (OutSet branch) / x in other (frozenset)
                     env = {("attr", me, "_set"): ("fin", sm)}
+                    if invert is not None:
+                        env["§invert"] = invert
                     self_has = not sm
                     if other_is_outset:
                         env[("attr", other, "_set")] = ("fin", om)
@@ -197,6 +228,15 @@ def _pointwise(t: Term, env: Dict[Term, bool]) -> bool:
         return (a or b) if t[1] == "|" else (a and b) if t[1] == "&" else (a and not b)
     if t[0] == "call" and t[1] == T.glob("frozenset") and not t[2]:
         return False
+    if t[0] == "unop" and t[1] == "~":
+        k, m = _member(t[2], env)
+        if k == "fin":
+            raise Definite(f"{T.show(t)} complements a plain frozenset (TypeError)")
+        inv = env.get("§invert")
+        if inv is None:
+            raise Definite(f"{T.show(t)}: OutSet defines no __invert__ (TypeError)")
+        # what OutSet.__invert__ returns for this operand
+        return _member(T.replace(inv[1], {inv[0]: T.strip(t[2])}), env)
     if t[0] == "op":
         raise Definite(f"operator {t[1]} in {T.show(t)} is not a set operation")
     raise Unknown(f"set expression {T.show(t)} not understood")
